@@ -286,6 +286,7 @@ func init() {
 				return strings.HasPrefix(fn, "Call") || strings.HasPrefix(fn, "(*callable)") || fn == "NewCallable" || fn == "resolveArgs" || fn == "typesArgs" || fn == "typesInOut"
 			})
 			callableRules(c)
+			packageCall(c)
 			out := c.sel(func(o *an.Oblig) bool { return isUndecided(o) || o.Rule == "ANCHOR" })
 			return append(out, c.C.List...)
 		},
@@ -297,4 +298,82 @@ func init() {
 			floorRule("WR", "WR", 4),
 		},
 	})
+}
+
+// packageCall: bigbuff.Call applies every option, returns the first option error without calling, and otherwise invokes
+// caller.Call exactly once with the configured thunks, returning its error; MustCall is Call + panic on error.
+func packageCall(c *Ctx) {
+	P := c.P
+	q := c.F("Call")
+	if !q.ok() {
+		return
+	}
+	invs := P.CallsTo(q.fn, "invoke:bigbuff.Callable.Call")
+	opts := an.AllInstrs(q.fn, func(in ssa.Instruction) bool {
+		call, ok := in.(*ssa.Call)
+		if !ok || call.Call.IsInvoke() || call.Call.StaticCallee() != nil {
+			return false
+		}
+		if _, isB := call.Call.Value.(*ssa.Builtin); isB {
+			return false
+		}
+		return len(call.Call.Args) == 1
+	})
+	if !q.need(invs, "PATH", "caller.Call(...)") || !q.need(opts, "PATH", "option(config)") {
+		return
+	}
+	inv := invs[0]
+	once := len(invs) == 1 && !P.InCycle(inv)
+	q.add("PATH", "the callable is invoked at most once", once, pickS(once, "one caller.Call, outside any loop", "caller.Call can run more than once per Call"), inv)
+	// options come from the variadic parameter, in a loop, each error returned before the invocation
+	op := opts[0].(*ssa.Call)
+	fromOpts := false
+	for _, s := range P.Sources(op.Call.Value) {
+		if ld, isL := isLoad(s); isL {
+			if ia, isIA := ld.X.(*ssa.IndexAddr); isIA && ia.X == ssa.Value(q.fn.Params[1]) {
+				fromOpts = true
+			}
+		}
+	}
+	okOpt := len(opts) == 1 && fromOpts && P.InCycle(op) && q.onlyAfterSuccess(op, inv)
+	q.add("PATH", "every option is applied and an option error prevents the invocation", okOpt,
+		pickS(okOpt, "for each options[i]: err := options[i](config); caller.Call only through err == nil", "an option's error does not stop Call before the function is invoked, or not every option is applied"), op)
+	// the invocation gets config.args / config.results of the config the options were applied to
+	cfgOK := false
+	if a, r := callArg(inv, 0), callArg(inv, 1); a != nil && r != nil {
+		la, okA := isLoad(a)
+		lr, okR := isLoad(r)
+		if okA && okR && an.FieldOfAddr(la.X) == "callConfig.args" && an.FieldOfAddr(lr.X) == "callConfig.results" {
+			fa, _ := la.X.(*ssa.FieldAddr)
+			fr, _ := lr.X.(*ssa.FieldAddr)
+			cfgOK = fa != nil && fr != nil && fa.X == fr.X && fa.X == op.Call.Args[0]
+		}
+	}
+	q.add("PROV", "the callable receives the thunks the options configured", cfgOK, pickS(cfgOK, "caller.Call(config.args, config.results) of the config passed to every option", "caller.Call does not receive config.args / config.results of the config the options filled in"), inv)
+	// returns: the invocation's error, or an error that precedes it
+	for _, r := range returnsOf(q.fn) {
+		after := P.PathExists(q.fn, inv, an.Is(r), nil, nil)
+		if after {
+			okr := false
+			for _, v := range c.retVals(r, 0) {
+				okr = v == ssa.Value(inv.(*ssa.Call))
+			}
+			q.add("PROV", "Call returns the callable's own verdict", okr, pickS(okr, "return caller.Call(...)", "after invoking the function Call returns something other than caller.Call's error"), r)
+		} else {
+			okr := !anyNil(c.retVals(r, 0))
+			q.add("PATH", "Call reports success only after invoking", okr, pickS(okr, "every return that precedes the invocation carries an error", "Call can return nil without having invoked the function"), r)
+		}
+	}
+	if m := c.F("MustCall"); m.ok() {
+		c.delegates("MustCall", "Call", "p0", "p1")
+		pans := an.AllInstrs(m.fn, an.IsPanic)
+		calls := P.CallsTo(m.fn, "Call")
+		okp := len(pans) == 1 && len(calls) == 1
+		if okp {
+			call := calls[0].(*ssa.Call)
+			ifn, ns, found := m.nilTestOf(func(v ssa.Value) bool { return v == ssa.Value(call) })
+			okp = found && m.onlyViaEdge(pans[0], ifn, 1-ns) && !P.PathExists(m.fn, ifn, an.IsReturn, nil, cutEdge(ifn, ns))
+		}
+		m.add("PATH", "MustCall panics iff Call returned an error", okp, pickS(okp, "panic only through err != nil, and always then", "MustCall can swallow an error or panic without one"), pans...)
+	}
 }
